@@ -47,16 +47,17 @@ try:
     for f in demo_tests:
         tnames += re.findall(r"^func (Test\w+)\(", open(f).read(), re.M)
     runpat = "^(%s)$" % "|".join(tnames) if tnames else "."
-    rc1, out1 = sh("go test -vet=off -count=1 -timeout 10m -run '%s' ." % runpat, cwd=wt, timeout=900)
+    race = "-race " if pid == "C14" else ""  # data-race demonstrations need the race detector
+    rc1, out1 = sh("go test %s-vet=off -count=1 -timeout 10m -run '%s' ." % (race, runpat), cwd=wt, timeout=900)
     note("demo_with_change_fails", rc1 != 0)
-    meta["ran"].append("go test -run '%s' . (with change): rc=%d" % (runpat, rc1))
+    meta["ran"].append("go test %s-run '%s' . (with change): rc=%d" % (race, runpat, rc1))
     # without the change
     sh("git diff HEAD > /root/scratch/seed/%s-%s.saved.diff && git checkout HEAD -- ." % (pid, n), cwd=wt)  # never git stash: it is shared by all worktrees
     for f in demo_tests:
         shutil.copy(f, wt)
-    rc2, out2 = sh("go test -vet=off -count=1 -timeout 10m -run '%s' ." % runpat, cwd=wt, timeout=900)
+    rc2, out2 = sh("go test %s-vet=off -count=1 -timeout 10m -run '%s' ." % (race, runpat), cwd=wt, timeout=900)
     note("demo_without_change_passes", rc2 == 0)
-    meta["ran"].append("go test -run '%s' . (without change): rc=%d" % (runpat, rc2))
+    meta["ran"].append("go test %s-run '%s' . (without change): rc=%d" % (race, runpat, rc2))
     if rc2 != 0:
         note("demo_without_log", out2[-1500:])
     for f in demo_tests:
